@@ -237,10 +237,35 @@ def _under_where_guard(prog, fi, node, den):
     return False
 
 
+class _Cols(ast.NodeTransformer):
+    """iteration over the columns of a (2-d) set written as rows of its transpose:  len(P.T) -> P.shape[1],  P.T[k] -> P[:, k]"""
+
+    def __init__(self, names):
+        self.names = names
+
+    def _is_t(self, e):
+        return isinstance(e, ast.Attribute) and e.attr == "T" and isinstance(e.value, ast.Name) and e.value.id in self.names
+
+    def visit_Call(self, n):
+        self.generic_visit(n)
+        if isinstance(n.func, ast.Name) and n.func.id == "len" and len(n.args) == 1 and self._is_t(n.args[0]):
+            return ast.copy_location(ast.Subscript(value=ast.Attribute(value=n.args[0].value, attr="shape", ctx=ast.Load()), slice=ast.Constant(value=1), ctx=ast.Load()), n)
+        return n
+
+    def visit_Subscript(self, n):
+        self.generic_visit(n)
+        if self._is_t(n.value) and not isinstance(n.slice, (ast.Tuple, ast.Slice)):
+            return ast.copy_location(ast.Subscript(value=n.value.value, slice=ast.Tuple(elts=[ast.Slice(lower=None, upper=None, step=None), n.slice], ctx=ast.Load()), ctx=n.ctx), n)
+        return n
+
+
 def mac_shape(prog, run, fi):
     f = rel(prog.mods[fi.mod].path)
     pos, _, _, _ = astq.params_of(fi.node)
     p0, p1 = pos[0], pos[1]
+    # `for i, x in enumerate(P.T)` / `zip` loops as index loops over the columns
+    fi = astq.IndexedFn(fi)
+    fi.node = ast.fix_missing_locations(_Cols({p0, p1}).visit(fi.node))
     # the matrix product
     prods = [n for n in ast.walk(fi.node) if isinstance(n, ast.BinOp) and isinstance(n.op, ast.MatMult)] + \
             [n for n in ast.walk(fi.node) if isinstance(n, ast.Call) and astq.callee_name(prog, fi, n) in ("numpy.dot", "numpy.matmul", "numpy.vdot")]
